@@ -503,6 +503,18 @@ func (env *SpecEnv) addrOf(x Expr) (VPtr, types.Type) {
 			et := b.t.Underlying().(*types.Slice).Elem()
 			return elemPtr(s, env.Int(n.I), et), et
 		}
+		if _, isArr := b.t.Underlying().(*types.Array); isArr {
+			// element of an array held in a struct field (or of an array object)
+			p, t := env.addrOf(n.X)
+			at := t.Underlying().(*types.Array)
+			i := env.Int(n.I)
+			if p.ArrLen >= 0 {
+				return VPtr{Ref: p.Ref, Idx: Add(p.Idx, i), Root: p.Root, ArrLen: -1, NonNil: true}, at.Elem()
+			}
+			np := p
+			np.Path = append(append([]Step{}, p.Path...), Step{Index: i})
+			return np, at.Elem()
+		}
 	case EIdent:
 		v := env.eval(x)
 		if p, ok := v.v.(VPtr); ok {
